@@ -234,6 +234,9 @@ def r10_initial_time(ctx, rule="C09.R10"):
 
 def run(ctx):
     rep = ctx.rep
+    rep.rule("C09.R11", "nothing on the default-l_ref path modifies in place what the (possibly memoised) subsystem kinematics hand out (K18 on interactions and force laws): the length evaluated for l_ref is the length of the initial configuration, not of a cache entry rewritten a moment earlier", 3)
+    from .. import cachepurity as _cp
+    _cp.report(ctx, "C09.R11", ("cardillo/interactions/", "cardillo/force_laws/"), check_returns=False, floor_note=False)
     rep.rule("C09.R10", "initial-time provenance: a scalar-interface subsystem takes `t0` (the time at which the default l_ref is evaluated) from a subsystem or from System.assemble, never from a literal", 2)
     r10_initial_time(ctx)
     rep.rule("C09.R9", "the default l_ref is evaluated on the RAW q0 while forces use the projected System.q0: a rigid body's pose must not depend on the length of its quaternion (normalising rotation kernel)", 4)
@@ -551,4 +554,9 @@ MUTANTS += [
 NEUTRAL += [
     dict(id="c09-n-r10", canary=True, what="TwoPointInteraction takes t0 from subsystem2 (same system, same initial time)", file='cardillo/interactions/two_point_interaction.py',
          old="        self.t0 = self.subsystem1.t0\n", new="        self.t0 = self.subsystem2.t0\n"),
+]
+
+MUTANTS += [
+    dict(id="c09-r11-seed", canary=True, what="[seeded by sub-agent] TwoPointInteraction's initial-distance check builds the connection vector in place in the array returned by the (memoised) r_OP of body 2", file='cardillo/interactions/two_point_interaction.py',
+         old="        l0 = norm(self.r_OP2(self.t0, self.q0) - self.r_OP1(self.t0, self.q0))\n", new="        r_P1P2 = self.r_OP2(self.t0, self.q0)\n        r_P1P2 -= self.r_OP1(self.t0, self.q0)\n        l0 = norm(r_P1P2)\n", expect="C09.R11"),
 ]
